@@ -376,6 +376,41 @@ func ruleBacktrackUndo(c *Ctx, rule string) {
 				return isSaved(bare, 1, 0) && truth == neg // the lookup found nothing
 			})
 		}
+		// the lookup really happened on the way to d: every branch edge that guards a saved lookup also guards d (the
+		// lookup and the undo sit behind the same `captures`); a "nothing found" that only means "not looked up" does
+		// not license a Delete
+		lookedUpBefore := func(d ssa.Instruction) bool {
+			if !an.DominatedByEdge(d, notHadEdge) {
+				return false
+			}
+			for _, g := range savedGets {
+				ok := true
+				for _, b := range f.Blocks {
+					br, isIf := b.Instrs[len(b.Instrs)-1].(*ssa.If)
+					if !isIf {
+						continue
+					}
+					for succ := 0; succ < 2; succ++ {
+						bb, ss := b, succ
+						guardsGet := an.DominatedByEdge(g, func(x *ssa.BasicBlock, k int) bool { return x == bb && k == ss })
+						if !guardsGet {
+							continue
+						}
+						guardsDel := an.DominatedByEdge(d, func(x *ssa.BasicBlock, k int) bool {
+							xi, isIf2 := x.Instrs[len(x.Instrs)-1].(*ssa.If)
+							return isIf2 && xi.Cond == br.Cond && k == ss
+						})
+						if !guardsDel {
+							ok = false
+						}
+					}
+				}
+				if ok {
+					return true
+				}
+			}
+			return false
+		}
 		if !viaIndex {
 			qB := mk(func(in ssa.Instruction) bool {
 				_, right := isDelOf(in)
@@ -393,7 +428,11 @@ func ruleBacktrackUndo(c *Ctx, rule string) {
 		// literal one wrote nothing, and a parameter of that name recorded before the search (a matcher's) must stay
 		if !viaIndex {
 			qD := mk(func(in ssa.Instruction) bool { return target(in) || isSuccessRet(in) })
-			qD.Target = func(in ssa.Instruction) bool { _, right := isDelOf(in); return right }
+			// a Delete behind the edge "the name held nothing before the attempt" removes at most what the child wrote
+			qD.Target = func(in ssa.Instruction) bool {
+				_, right := isDelOf(in)
+				return right && !lookedUpBefore(in)
+			}
 			qD.BlockEdge = func(b *ssa.BasicBlock, succ int) bool { return edgeKind(b, succ) == 2 }
 			pathD := qD.Search(start)
 			construct := fmt.Sprintf("match:%s/scan/abandon-deletes-only-what-it-wrote:%s", segAP, wantKey[f])
@@ -412,7 +451,7 @@ func ruleBacktrackUndo(c *Ctx, rule string) {
 					return true
 				}
 				if _, right := isDelOf(in); right {
-					return an.DominatedByEdge(in, notHadEdge)
+					return lookedUpBefore(in)
 				}
 				return false
 			})
